@@ -16,20 +16,22 @@ open Haiway.Retry
 
 def clsId : String → Option Nat
   | "Ex" => some 0 | "Cn" => some 1 | "Bx" => some 2 | "E1" => some 3 | "E1s" => some 4
-  | "E2" => some 5 | "BE" => some 6 | "Cs" => some 7 | _ => none
+  | "E2" => some 5 | "BE" => some 6 | "Cs" => some 7 | "CE" => some 8 | _ => none
 
 def clsName : Nat → String
-  | 0 => "Ex" | 1 => "Cn" | 2 => "Bx" | 3 => "E1" | 4 => "E1s" | 5 => "E2" | 6 => "BE" | 7 => "Cs"
+  | 0 => "Ex" | 1 => "Cn" | 2 => "Bx" | 3 => "E1" | 4 => "E1s" | 5 => "E2" | 6 => "BE" | 7 => "Cs" | 8 => "CE"
   | _ => "?"
 
 /-- the harness's class hierarchy: Ex = Exception, Cn = CancelledError, Bx = BaseException,
-E1, E1s < E1, E2 (all < Exception), BE < BaseException, Cs < CancelledError -/
+E1, E1s < E1, E2 (all < Exception), BE < BaseException, Cs < CancelledError, CE < CancelledError *and* E1 (multiple inheritance) -/
 def isSub (c d : Nat) : Bool :=
-  c == d || d == 2 || (d == 0 && (c == 3 || c == 4 || c == 5)) || (c == 4 && d == 3) || (c == 7 && d == 1)
+  c == d || d == 2 || (d == 0 && (c == 3 || c == 4 || c == 5 || c == 8)) || (c == 4 && d == 3) || (c == 7 && d == 1)
+    || (c == 8 && (d == 1 || d == 3))
 
 def kindCls : String → Option (Option Nat)
   | "ok" => some none | "e1" => some (some 3) | "e1s" => some (some 4) | "e2" => some (some 5)
   | "cn" => some (some 1) | "xc" => some (some 1) | "cs" => some (some 7) | "be" => some (some 6)
+  | "ce" => some (some 8)
   | _ => none
 
 def parseList (s : String) : Option (List Nat) := (s.splitOn ",").mapM clsId
@@ -76,7 +78,7 @@ def showFinal : Outcome → String
   | .ok v => s!"ok@{v}"
   | .raised e => s!"{clsName e.cls}@{e.id}"
 
-def runCase (line : String) : String :=
+def runOne (line : String) : String :=
   match Driver.words line with
   | _variant :: lim :: cat :: del :: kinds =>
     let bare := lim == "-"
@@ -97,5 +99,17 @@ def runCase (line : String) : String :=
         s!"calls={r.calls} final={showFinal r.final} gaps={g} fn={f}"
     | _, _, _, _ => "bad-case"
   | _ => "bad-case"
+
+/-- `M2|R2 <limit> <catching> <delay> <kinds of call 1> / <kinds of call 2>`: two calls through one wrapper whose executions
+overlap (concurrently / nested).  The wrapper keeps nothing between or across calls – `attempt` is a local of the call –
+so each call is `Retry.call` on its own outcome sequence (`C14.calls_independent`). -/
+def runCase (line : String) : String :=
+  if line.startsWith "M2 " || line.startsWith "R2 " then
+    match Driver.words line with
+    | _ :: lim :: cat :: del :: rest =>
+      let kinds := " ".intercalate rest
+      " / ".intercalate ((kinds.splitOn "/").map fun part => runOne s!"A {lim} {cat} {del} {part}")
+    | _ => "bad-case"
+  else runOne line
 
 end Driver.Retry
